@@ -5,10 +5,12 @@ package ops
 import (
 	"fmt"
 	"math/big"
+	"time"
 
 	g "github.com/zenon-network/go-zenon/chain/genesis/mock"
 	"github.com/zenon-network/go-zenon/chain/nom"
 	"github.com/zenon-network/go-zenon/common/types"
+	"github.com/zenon-network/go-zenon/vm/constants"
 	"github.com/zenon-network/go-zenon/wallet"
 
 	"verifmc/internal/vnode"
@@ -102,6 +104,15 @@ func Apply(n *vnode.Node, o Op) (out string) {
 			}
 		}
 		return fmt.Sprintf("m%d/b%d", nm, nb)
+	case "Mt": // produce the next momentum in the first slot of the NEXT election tick (the rest of the current tick is missed)
+		gm, _ := n.Chain.GetFrontierMomentumStore().GetMomentumByHeight(1)
+		slot := int(n.Frontier().Timestamp.Sub(*gm.Timestamp) / (10 * time.Second))
+		nc := int(constants.ConsensusConfig.NodeCount)
+		skip := (slot/nc+1)*nc - slot - 1
+		if _, err := n.Produce(skip); err != nil {
+			return "err:" + short(err)
+		}
+		return fmt.Sprintf("skipped%d", skip)
 	case "Mo": // momentum only (no contract auto-receives afterwards), skipping o.V slots first
 		if err := n.ProduceMomentumOnly(int(o.V)); err != nil {
 			return "err:" + short(err)
